@@ -48,6 +48,7 @@ type Exec struct {
 	obls     []*Obligation
 	callCovers map[string]bool
 	curRets    []Val // values being returned while post obligations are generated
+	closureBind map[string]specBinding // captured variables of the closure whose contract is being applied
 	notes    map[string]bool
 	discover bool
 	wlogs    []*writeLog
